@@ -203,10 +203,11 @@ example : (rRun (⟨[1, 2], none⟩ : Gen Nat WavErr) false [.next, .next, .next
   decide
 
 /-- **C18.19** a constructor that raises leaves no open handle of its own behind: by name the file it
-opened is closed by exactly one `close()` (bad header), every other way nothing was opened; a name
-kind `wave.open` refuses opens nothing. -/
+opened is closed explicitly, never abandoned (`close()` reaches it twice: the `except` clause of
+`Wave_read.__init__`, then `__del__` of the half-built object, on the already closed file — observed
+on the real code), every other way nothing was opened; a name kind `wave.open` refuses opens nothing. -/
 theorem res_open_failure (pre : List Handle) :
-    construct .name false pre = .error (pre ++ [⟨.stream, false, 1, false⟩])
+    construct .name false pre = .error (pre ++ [⟨.stream, false, 2, false⟩])
       ∧ construct .fileObj false pre = .error pre ∧ construct .memory false pre = .error pre
       ∧ ∀ ok, construct .refusedName ok pre = .error pre :=
   ⟨construct_name_fail pre, rfl, rfl, fun _ => rfl⟩
